@@ -232,8 +232,7 @@ def run_swap(chk: Check, owner: str):
     paths = g.bfs_paths()
     rnd = random.Random(chk.seed + 7)
     budget = 3000 if quick else 40000
-    if len(paths) > budget:
-        paths = rnd.sample(paths, budget)
+    paths, _ = tlc.choose_paths(g, paths, budget, rnd)
     for p in paths:
         counts, viols, n = replay_swap([nodes[i] for i in p], owner)
         chk.traces += 1
@@ -263,8 +262,7 @@ def run_cross(chk: Check, owner: str):
     paths = g.bfs_paths()
     rnd = random.Random(chk.seed)
     budget = 4000 if quick else 60000
-    if len(paths) > budget:
-        paths = rnd.sample(paths, budget)
+    paths, _ = tlc.choose_paths(g, paths, budget, rnd)
     for p in paths:
         counts, viols, n = replay([nodes[i] for i in p], owner)
         chk.traces += 1
